@@ -3,10 +3,15 @@
 package e1lib
 
 import (
+	"crypto/sha1"
+	"encoding/hex"
 	"encoding/json"
 	"fmt"
 	"io"
 	"log/slog"
+	"os"
+	"path/filepath"
+	"sort"
 	"strings"
 	"time"
 
@@ -40,6 +45,8 @@ type Scenario struct {
 	Nontrivial func(outcomes, executions, states int) bool
 	// Count lets the scenario add counters from each terminal state
 	Count func(o *obs.Obs, counters, maxima map[string]int)
+
+	proj map[string]bool // projected outcomes of the complete terminal states (see ProjFile)
 }
 
 func init() {
@@ -60,6 +67,17 @@ func Observe(x *rt.Exec) *obs.Obs {
 		}
 	}
 	return o
+}
+
+// ProjFile is where the set of projected outcomes (obs.Project) of a completely explored scenario is stored for
+// the outcome-conformance check of the free-running pass; "" when $VERIF_PROJ_DIR is not set.
+func (s *Scenario) ProjFile() string {
+	dir := os.Getenv("VERIF_PROJ_DIR")
+	if dir == "" {
+		return ""
+	}
+	h := sha1.Sum([]byte(s.Name))
+	return filepath.Join(dir, hex.EncodeToString(h[:])+".json")
 }
 
 func (s *Scenario) explorer(deadline time.Time, counters, maxima map[string]int) *explore.Explorer {
@@ -84,6 +102,15 @@ func (s *Scenario) explorer(deadline time.Time, counters, maxima map[string]int)
 			if x.HitHorizon && !s.Live {
 				return ""
 			}
+			if s.proj != nil {
+				complete := true
+				for _, k := range s.RealDone {
+					complete = complete && o.Has(k)
+				}
+				if complete {
+					s.proj[o.Project(s.RealDone)] = true
+				}
+			}
 			return s.Check(o)
 		},
 		Outcome: func(x *rt.Exec) string { return Observe(x).Canon() },
@@ -97,8 +124,25 @@ type replayData struct {
 // Run explores the scenario and packages the result.
 func (s *Scenario) Run(deadline time.Time) drv.Result {
 	counters, maxima := map[string]int{}, map[string]int{}
+	pf := s.ProjFile()
+	if pf != "" && s.RealDone != nil && s.Bound < 0 {
+		s.proj = map[string]bool{}
+	}
 	e := s.explorer(deadline, counters, maxima)
 	e.Explore()
+	if s.proj != nil && e.Exhaustive && e.HorizonHits == 0 && len(e.Violations) == 0 {
+		// every schedule was explored: the real runtime cannot produce a complete outcome outside this set
+		var ps []string
+		for k := range s.proj {
+			ps = append(ps, k)
+		}
+		sort.Strings(ps)
+		if b, err := json.Marshal(ps); err == nil {
+			os.WriteFile(pf, b, 0o644)
+		}
+		counters["outcome_sets_for_conformance"]++
+	}
+	s.proj = nil
 	r := drv.Result{
 		Case: s.Name, States: len(e.States), Transitions: e.Transitions, Evaluations: e.Executions,
 		Outcomes: len(e.Outcomes), Exhaustive: e.Exhaustive, Counters: counters, Maxima: maxima,
